@@ -1,0 +1,189 @@
+//go:build verif
+
+// Contracts for the deductive verifier in /verif (gvc). Comment-only file:
+// with the `verif` build tag off it is not even parsed; with the tag on it
+// contributes no declarations. Syntax: see /verif/DESIGN.md §2.3.
+
+package memberlist
+
+//@ func (*awareness).ApplyDelta(a, delta)
+//@   safety [C19]
+//@   requires nonnil: a != nil
+//@   assigns awareness.score
+//@   ensures clamp [C19]: a.max >= 1 ==> a.score >= 0 && a.score <= a.max - 1
+
+//@ func pkcs7decode(buf, bs)
+//@   safety [C13]
+
+//@ func remainingSuspicionTime(n, k, elapsed, min, max)
+//@   safety [C06]
+//@   requires nk: 0 <= n && n <= k && k >= 1
+//@   requires mm: 0 <= min && min <= max
+//@   ensures lower [C06]: result + elapsed >= min
+
+// ---------------------------------------------------------------------
+// Shared vocabulary (DESIGN §4)
+// ---------------------------------------------------------------------
+
+//@ datatype Event = EvJoin(ejn string, ejm bseq) | EvLeave(eln string) | EvUpdate(eun string, eum bseq) | EvConflict(ecn string) | Bq(bk string, bt int, binc int, bsubj string, bfrom string, bnotify int)
+//@ ghost $ev Trace
+//@ ghost $bq Trace
+//@ ghost $cf Trace
+
+//@ pure dol(st NodeStateType) bool := st == StateDead || st == StateLeft
+//@ pure sr(st NodeStateType) int := ite(st == StateAlive, 0, ite(st == StateSuspect, 1, 2))
+//@ pure rankLe(i1 uint32, s1 NodeStateType, i2 uint32, s2 NodeStateType) bool := i1 < i2 || (i1 == i2 && sr(s1) <= sr(s2))
+//@ pure live(m *Memberlist, n string) bool := has(m.nodeMap, n) && !dol(m.nodeMap[n].State)
+//@ pure recSame(p *nodeState) bool := p.Name == old(p.Name) && p.Addr == old(p.Addr) && bytesEq(p.Addr, old(p.Addr)) && p.Port == old(p.Port)
+//@      && p.Meta == old(p.Meta) && bytesEq(p.Meta, old(p.Meta))
+//@      && p.PMin == old(p.PMin) && p.PMax == old(p.PMax) && p.PCur == old(p.PCur) && p.DMin == old(p.DMin) && p.DMax == old(p.DMax) && p.DCur == old(p.DCur)
+//@      && p.Incarnation == old(p.Incarnation) && p.State == old(p.State) && p.StateChange == old(p.StateChange)
+//@ pure sameRec(m *Memberlist, x string) bool := has(m.nodeMap, x) == old(has(m.nodeMap, x))
+//@      && (has(m.nodeMap, x) ==> m.nodeMap[x] == old(m.nodeMap[x]) && recSame(m.nodeMap[x]))
+//@ pure sameTimers(m *Memberlist) bool := forall x string :: has(m.nodeTimers, x) == old(has(m.nodeTimers, x)) && (has(m.nodeTimers, x) ==> m.nodeTimers[x] == old(m.nodeTimers[x]))
+//@ pure sameList(m *Memberlist) bool := m.nodes == old(m.nodes) && (forall i int :: 0 <= i && i < len(m.nodes) ==> m.nodes[i] == old(m.nodes[i]))
+//@ pure sameView(m *Memberlist) bool := (forall x string :: sameRec(m, x)) && sameList(m) && sameTimers(m)
+//@ pure quiet() bool := $ev == old($ev) && $bq == old($bq) && $cf == old($cf)
+//@ pure mlOK(m *Memberlist) bool := m != nil && m.config != nil && m.awareness != nil && m.nodeMap != nil && m.nodeTimers != nil && m.broadcasts != nil && m.logger != nil
+
+//@ atomic Memberlist.incarnation rely nondecreasing
+//@ atomic Memberlist.leave rely monotone01
+//@ atomic Memberlist.shutdown rely monotone01
+
+// Lock invariant of nodeLock (Inv_N, DESIGN §4); each conjunct is its own obligation.
+//@ lock Memberlist.nodeLock recv m strict
+//@   protects Memberlist.nodes, nodeState.*, elems *nodeState, map map[string]*nodeState, map map[string]*suspicion
+//@   inv N1 [C01,C07]: forall n string :: has(m.nodeMap, n) ==> m.nodeMap[n] != nil && m.nodeMap[n].Name == n
+//@   inv N2 [C07]: forall i int :: 0 <= i && i < len(m.nodes) ==> m.nodes[i] != nil && has(m.nodeMap, m.nodes[i].Name) && m.nodeMap[m.nodes[i].Name] == m.nodes[i]
+//@   inv N3 [C07]: forall i int, j int :: 0 <= i && i < j && j < len(m.nodes) ==> m.nodes[i] != m.nodes[j]
+//@   inv N4 [C07]: len(m.nodes) == len(m.nodeMap)
+//@   inv N5 [C01,C06]: forall n string :: has(m.nodeTimers, n) <==> (has(m.nodeMap, n) && m.nodeMap[n].State == StateSuspect)
+//@   inv N5b [C06]: forall n string :: has(m.nodeTimers, n) ==> m.nodeTimers[n] != nil
+//@   inv N6 [C02]: has(m.nodeMap, m.config.Name) ==> m.nodeMap[m.config.Name].State != StateSuspect
+//@   inv N7 [C01]: forall n string :: has(m.nodeMap, n) ==> 0 <= m.nodeMap[n].State && m.nodeMap[n].State <= 3
+//@   inv N9 [C02]: has(m.nodeMap, m.config.Name) && !(dol(m.nodeMap[m.config.Name].State) && m.leave == 1) ==> m.nodeMap[m.config.Name].Incarnation <= m.incarnation
+
+//@ iface EventDelegate.NotifyJoin(n)
+//@   assigns $ev
+//@   held Memberlist.nodeLock [C07]
+//@   ensures ev: $ev == snoc(old($ev), EvJoin(n.Name, n.Meta))
+//@ iface EventDelegate.NotifyLeave(n)
+//@   assigns $ev
+//@   held Memberlist.nodeLock [C07]
+//@   ensures ev: $ev == snoc(old($ev), EvLeave(n.Name))
+//@ iface EventDelegate.NotifyUpdate(n)
+//@   assigns $ev
+//@   held Memberlist.nodeLock [C07]
+//@   ensures ev: $ev == snoc(old($ev), EvUpdate(n.Name, n.Meta))
+//@ iface ConflictDelegate.NotifyConflict(existing, other)
+//@   assigns $cf
+//@   ensures cf: $cf == snoc(old($cf), EvConflict(existing.Name))
+//@ iface AliveDelegate.NotifyAlive(peer)
+//@   assigns nothing
+
+//@ pure msgInc(msg any) int := ite(typeIs(msg, *alive), unbox(msg, *alive).Incarnation, ite(typeIs(msg, alive), unbox(msg, alive).Incarnation,
+//@      ite(typeIs(msg, *suspect), unbox(msg, *suspect).Incarnation, ite(typeIs(msg, *dead), unbox(msg, *dead).Incarnation, 0 - 1))))
+//@ pure msgSubj(msg any) string := ite(typeIs(msg, *alive), unbox(msg, *alive).Node, ite(typeIs(msg, alive), unbox(msg, alive).Node,
+//@      ite(typeIs(msg, *suspect), unbox(msg, *suspect).Node, ite(typeIs(msg, *dead), unbox(msg, *dead).Node, ""))))
+//@ pure msgFrom(msg any) string := ite(typeIs(msg, *suspect), unbox(msg, *suspect).From, ite(typeIs(msg, *dead), unbox(msg, *dead).From, ""))
+
+// encodeBroadcastNotify: assumed not to fail encoding the protocol structs (DESIGN §5 C01 assumptions).
+//@ func (*Memberlist).encodeBroadcastNotify(m, node, msgType, msg, notify)
+//@   trusted
+//@   assigns $bq
+//@   ensures enq: $bq == snoc(old($bq), Bq(node, msgType, msgInc(msg), msgSubj(msg), msgFrom(msg), notify))
+
+//@ func (*suspicion).Confirm(s, from)
+//@   modular
+//@   requires nonnil: s != nil
+//@   assigns suspicion.*, map map[string]struct{}
+
+//@ func newSuspicion(from, k, min, max, fn)
+//@   modular
+//@   assigns suspicion.*, map map[string]struct{}
+//@   ensures fresh: result != nil && fresh(result)
+
+//@ func (*Memberlist).refute(m, me, accusedInc)
+//@   safety [C02,C13]
+//@   requires ok: mlOK(m)
+//@   requires me: me != nil && has(m.nodeMap, m.config.Name) && me == m.nodeMap[m.config.Name]
+//@   requires n9: me.Incarnation <= m.incarnation
+//@   requires nowrap: accusedInc < 4294967295
+//@   assigns nodeState.Incarnation, Memberlist.incarnation, awareness.score, $bq
+//@   ensures above [C02]: me.Incarnation > accusedInc
+//@   ensures up [C01,C02]: me.Incarnation > old(me.Incarnation) && me.Incarnation <= m.incarnation
+//@   ensures frame [C01]: forall p *nodeState :: p != me ==> p.Incarnation == old(p.Incarnation)
+//@   ensures bq [C02]: $bq == snoc(old($bq), Bq(ext("(net.IP).String", me.Addr), aliveMsg, me.Incarnation, me.Name, "", 0))
+
+// ---------------------------------------------------------------------
+// State functions (C01, C02, C06, C07, C08)
+// ---------------------------------------------------------------------
+
+//@ func (*Memberlist).suspectNode(m, s)
+//@   safety [C13,C20]
+//@   monitor Memberlist.nodeLock
+//@   requires ok: mlOK(m) && s != nil
+//@   requires nowrap: s.Incarnation < 4294967295
+//@   let n := s.Node
+//@   let h := old(has(m.nodeMap, s.Node))
+//@   let r := old(m.nodeMap[s.Node])
+//@   let t := old(has(m.nodeTimers, s.Node))
+//@   ensures S-frame [C01,C07]: forall x string :: x != n ==> sameRec(m, x)
+//@   ensures S-list [C01,C07]: sameList(m)
+//@   ensures S-ignore [C01]: (!h || s.Incarnation < old(r.Incarnation) || (!t && old(r.State) != StateAlive)) ==> sameView(m) && quiet()
+//@   ensures S-confirm [C01,C06]: h && s.Incarnation >= old(r.Incarnation) && t ==> sameRec(m, n) && sameTimers(m) && $ev == old($ev) && $cf == old($cf)
+//@                  && ($bq == old($bq) || $bq == snoc(old($bq), Bq(n, suspectMsg, s.Incarnation, n, s.From, 0)))
+//@   ensures S-self [C02]: h && s.Incarnation >= old(r.Incarnation) && !t && old(r.State) == StateAlive && n == m.config.Name ==>
+//@                  m.nodeMap[n] == r && r.Incarnation > s.Incarnation && r.State == StateAlive && !has(m.nodeTimers, n) && $ev == old($ev)
+//@                  && $bq == snoc(old($bq), Bq(ext("(net.IP).String", r.Addr), aliveMsg, r.Incarnation, n, "", 0))
+//@   ensures S-suspect [C01,C03,C06]: h && s.Incarnation >= old(r.Incarnation) && !t && old(r.State) == StateAlive && n != m.config.Name ==>
+//@                  m.nodeMap[n] == r && r.Incarnation == s.Incarnation && r.State == StateSuspect && has(m.nodeTimers, n) && $ev == old($ev)
+//@                  && $bq == snoc(old($bq), Bq(n, suspectMsg, s.Incarnation, n, s.From, 0))
+//@   ensures S-live [C07,C09]: forall x string :: live(m, x) == old(live(m, x))
+//@   ensures S-noev [C07]: $ev == old($ev)
+//@   ensures S-mono [C01]: forall x string :: old(has(m.nodeMap, x)) ==> has(m.nodeMap, x) &&
+//@                  rankLe(old(m.nodeMap[x].Incarnation), old(m.nodeMap[x].State), m.nodeMap[x].Incarnation, m.nodeMap[x].State)
+
+//@ func (*Memberlist).deadNode(m, d)
+//@   safety [C13,C20]
+//@   monitor Memberlist.nodeLock
+//@   requires ok: mlOK(m) && d != nil
+//@   requires nowrap: d.Incarnation < 4294967295
+//@   let n := d.Node
+//@   let h := old(has(m.nodeMap, d.Node))
+//@   let r := old(m.nodeMap[d.Node])
+//@   let left := m.leave == 1
+//@   ensures D-frame [C01,C07]: forall x string :: x != n ==> sameRec(m, x)
+//@   ensures D-list [C01,C07]: sameList(m)
+//@   ensures D-ignore [C01]: (!h || d.Incarnation < old(r.Incarnation)) ==> sameView(m) && quiet()
+//@   ensures D-already [C01]: h && d.Incarnation >= old(r.Incarnation) && dol(old(r.State)) ==> sameRec(m, n) && quiet()
+//@   ensures D-self [C02]: h && d.Incarnation >= old(r.Incarnation) && !dol(old(r.State)) && n == m.config.Name && !left ==>
+//@                  m.nodeMap[n] == r && r.Incarnation > d.Incarnation && r.State == old(r.State) && $ev == old($ev)
+//@                  && $bq == snoc(old($bq), Bq(ext("(net.IP).String", r.Addr), aliveMsg, r.Incarnation, n, "", 0))
+//@   ensures D-kill [C01,C07,C08]: h && d.Incarnation >= old(r.Incarnation) && !dol(old(r.State)) && n != m.config.Name ==>
+//@                  m.nodeMap[n] == r && r.Incarnation == d.Incarnation && r.State == ite(d.Node == d.From, StateLeft, StateDead) && !has(m.nodeTimers, n)
+//@                  && $bq == snoc(old($bq), Bq(n, deadMsg, d.Incarnation, n, d.From, 0))
+//@   ensures D-timers [C06]: forall x string :: x != n ==> has(m.nodeTimers, x) == old(has(m.nodeTimers, x)) && m.nodeTimers[x] == old(m.nodeTimers[x])
+//@   ensures D-only [C07]: forall x string :: old(live(m, x)) && !live(m, x) ==> x == n
+//@   ensures D-nojoin [C07]: forall x string :: !old(live(m, x)) ==> !live(m, x)
+//@   ensures D-ev [C07]: m.config.Events != nil ==> ((old(live(m, n)) && !live(m, n)) <==> $ev == snoc(old($ev), EvLeave(n))) && ($ev == old($ev) || $ev == snoc(old($ev), EvLeave(n)))
+//@   ensures D-ev-nil [C07]: m.config.Events == nil ==> $ev == old($ev)
+//@   ensures D-mono [C01]: forall x string :: old(has(m.nodeMap, x)) ==> has(m.nodeMap, x) &&
+//@                  rankLe(old(m.nodeMap[x].Incarnation), old(m.nodeMap[x].State), m.nodeMap[x].Incarnation, m.nodeMap[x].State)
+//@   ensures D-selfstays [C02]: old(live(m, m.config.Name)) && !left ==> live(m, m.config.Name)
+
+//@ ghost $aliveRes int
+//@ iface AliveDelegate.NotifyAlive(peer)
+//@   assigns $aliveRes
+//@   ensures res: $aliveRes == result
+
+//@ pure ipok(c *Config, ip []byte) bool := len(c.CIDRsAllowed) == 0 || (exists i int :: 0 <= i && i < len(c.CIDRsAllowed) && ext("(*net.IPNet).Contains", c.CIDRsAllowed[i], ip))
+
+//@ func (*Config).IPAllowed(c, ip)
+//@   safety [C13,C18]
+//@   requires nonnil: c != nil
+//@   assigns nothing
+//@   loop #1 invariant idx [C18]: rangeindex < len(c.CIDRsAllowed)
+//@   loop #1 invariant none [C18]: forall j int :: 0 <= j && j <= rangeindex ==> !ext("(*net.IPNet).Contains", c.CIDRsAllowed[j], ip)
+//@   ensures allow [C18]: result == nil ==> ipok(c, ip)
+//@   ensures deny [C18]: result != nil ==> !ipok(c, ip)
